@@ -1,14 +1,14 @@
-SPECIFICATION SpecInst
+SPECIFICATION Spec
 CONSTANTS
-  Fams <- InstFams
+  Fams <- ScanFams
   D_SwapDelete = TRUE
-  M_RemovePerSelector = TRUE
+  M_RemovePerSelector = FALSE
   ScanT = 1
   M_NamesComparedWhole = TRUE
   NameW = 5
+  M_BuffersPerInstance = TRUE
   Cap = 2
   M_DepthBuffersDisjoint = TRUE
   M_AllDocumentKindsFiltered = TRUE
-  M_BuffersPerInstance = FALSE
-INVARIANTS InstInv
+INVARIANTS MutantScanInv
 CHECK_DEADLOCK FALSE
